@@ -435,7 +435,12 @@ def oracle_session(v, info):
                 bad.append(f'caller {i} of a request expecting {want or "status"} accepted a reply of type {rtype}: {_short(t)}')
             continue
         if exc is not None:
-            continue                      # error status or undecodable payload: the caller was told
+            # error status or undecodable payload: the caller must be told with a documented SFTPError
+            # (a malformed body of a legal type is BAD_MESSAGE), never with a leaked decode error
+            if not isinstance(exc, asyncssh.SFTPError):
+                bad.append(f'caller {i} got {type(exc).__name__} ({str(exc)[:60]!r}) for a reply of type {rtype}; '
+                           f'only SFTPError subclasses are documented')
+            continue
         val = t.result()
         if rtype == 101:
             if val is not None:
